@@ -128,6 +128,27 @@ def gen_hybrid_schema(rng, sw):
                 rename[f[0]] = ("_" + f[0]) if rng.random() < 0.3 else (f[0] + "_py")
         schema.append({"k": "struct", "name": f"H{j}Data", "hname": f"H{j}", "hybrid": True, "fields": fields, "rename": rename, "decl": "hybrid"})
         hyb.append(len(schema) - 1)
+    if sw.get("subclass"):
+        # a hybrid subclass that redeclares the fields of its parent with other defaults (what is kept
+        # per class must not be looked up through the parent)
+        withd = [h for h in hyb if any(len(f) > 2 for f in schema[h]["fields"]) and not typegen.has_refs(schema, h)]
+        if withd:
+            b = rng.choice(withd)
+            fields = []
+            for f in schema[b]["fields"]:
+                g = [f[0], f[1]]
+                if len(f) > 2 and schema[f[1]]["k"] == "sc":
+                    kind = "default" if "default" in f[2] else "default_factory"
+                    nv = typegen._small_scalar(rng, schema[f[1]]["t"])
+                    for _ in range(4):
+                        if nv != f[2][kind]:
+                            break
+                        nv = typegen._small_scalar(rng, schema[f[1]]["t"])
+                    g.append({kind: nv, "parent": f[2][kind]})
+                fields.append(g)
+            nm = schema[b]["hname"] + "S"
+            schema.append({"k": "struct", "name": f"{nm}Data", "hname": nm, "hybrid": True, "fields": fields, "rename": dict(schema[b].get("rename") or {}), "decl": "hybrid", "hbase": b})
+            hyb.append(len(schema) - 1)
     if sw.get("deep_dyn"):
         # three levels by value, the innermost with several dynamic arrays of one item type: equal
         # total sizes with different splits exist at every level above it
@@ -153,7 +174,7 @@ def gen_hybrid_schema(rng, sw):
 def gen_world(rng, profile, tier):
     spec = objsim.gen_world(rng, profile, tier)
     sw = spec["switches"]
-    sw.update({"chain": rng.random() < 0.35, "nested": rng.random() < 0.8, "rename": rng.random() < 0.7, "refs": rng.random() < 0.6, "defaults": rng.random() < 0.7, "strings": rng.random() < 0.6, "hybrid": True, "xobj_input": rng.random() < 0.7, "omit": rng.random() < 0.6, "nested_refs": rng.random() < 0.5, "deep_dyn": rng.random() < 0.3})
+    sw.update({"chain": rng.random() < 0.35, "nested": rng.random() < 0.8, "rename": rng.random() < 0.7, "refs": rng.random() < 0.6, "defaults": rng.random() < 0.7, "strings": rng.random() < 0.6, "hybrid": True, "xobj_input": rng.random() < 0.7, "omit": rng.random() < 0.6, "nested_refs": rng.random() < 0.5, "deep_dyn": rng.random() < 0.3, "subclass": rng.random() < 0.3})
     spec["schema"] = gen_hybrid_schema(rng, sw)
     return spec
 
@@ -435,7 +456,10 @@ class HGenSource(GenSource):
             if fdecl and M.decl_default(fdecl[0]) is not None and rng.random() < 0.35:
                 # the declared default itself, or (floats) its closest neighbour: not the default
                 dt = np.dtype(typegen.SC_DTYPE[ty["t"]])
-                dflt = np.frombuffer(M.default_node(w.schema, t, M.decl_default(fdecl[0])), dtype=dt)[0]
+                dd = M.decl_default(fdecl[0])
+                if len(fdecl[0]) > 2 and "parent" in fdecl[0][2] and rng.random() < 0.5:
+                    dd = fdecl[0][2]["parent"]  # (the default the parent class declares for this field)
+                dflt = np.frombuffer(M.default_node(w.schema, t, dd), dtype=dt)[0]
                 if dt.kind == "f" and rng.random() < 0.6:
                     dflt = np.nextafter(dflt, dt.type(np.inf) if rng.random() < 0.5 else dt.type(-np.inf))
                 value = {"x": dt.type(dflt).tobytes().hex()}
